@@ -692,6 +692,9 @@ class ConsumerWorld(ClientWorld):
         if name == "send_offset_commit_request" and self.PROP in ("C14", "C12"):
             return  # commits have their own attempt counter and delay; C14's words are about the fetch path
         if isinstance(res, Failure):
+            from afkak.common import OffsetOutOfRangeError
+            if res.check(OffsetOutOfRangeError):
+                self.out_of_range_seen = getattr(self, "out_of_range_seen", 0) + 1  # reached the consumer
             if res.check(CancelledError) and (self.stop_step is not None):
                 return
             self.consec_failures += 1
@@ -909,7 +912,8 @@ class ConsumerWorld(ClientWorld):
                           "log entries from offset %d on were never delivered although faults ceased "
                           "(fetch sizes %r, tail %r)" % (leaves[self.expected_next][0],
                                                          sorted(set(x[3] for x in self.fetch_reqs)), self.trace[-8:]))
-            if policy is None and self.out_of_range_answers and not self.cfg.get("group"):
+            # (an answer the client had already timed out never reaches the consumer: judged at the seam)
+            if policy is None and getattr(self, "out_of_range_seen", 0) and not self.cfg.get("group"):
                 self.viol("offset-reset", "out-of-range-ignored-without-policy",
                           "an out-of-range answer was given, auto_offset_reset is None, yet start() did not fail")
 
